@@ -47,7 +47,7 @@ SYS_FREQS = {"G": ["G01", "G02", "G05"], "R": ["R01", "R02", "R03"], "E": ["E01"
 DAZIS = ["0.0", "5.0", "10.0", "30.0", "90.0", "45.0", "15.0", "60.0", "120.0", "180.0", "2.5"]
 DZENS = ["0.5", "1.0", "2.0", "2.5", "5.0", "10.0", "0.25", "4.0", "15.0"]
 # a decimal step that is not a dyadic rational (the grid is computed with np.arange in doubles)
-DZENS_DECIMAL = ["0.1", "0.2", "0.3", "0.7", "1.1"]
+DZENS_DECIMAL = ["0.1", "0.2", "0.3", "0.7", "1.1", "0.4", "0.6", "0.9"]
 COMMENT_CHARS = "ABCDEFGHIJKLMNOPQRSTUVWXYZabcdefghijklmnopqrstuvwxyz0123456789 #*-+./:(),=!_"
 
 
@@ -580,14 +580,25 @@ def compare_outputs(model: Dict[str, str], impl: Dict[str, str], ties: bool) -> 
     diffs = []
     mkeys, ikeys = set(model), set(impl)
     if ties and mkeys != ikeys:
-        # a validity start that is an exact tie in the 7th digit may land on either microsecond: align keys
-        def norm(k):
+        # a validity start that is an exact tie in the 7th digit lands on either neighbouring microsecond in
+        # doubles: rename the implementation's period keys to the model's when they are 1 us apart
+        def period(k):
             parts = k.split("|")
-            if len(parts) > 2 and parts[2].startswith("s"):
-                parts[2] = "s" + str(int(parts[2][1:]) // 2 * 2)
-            return "|".join(parts)
-        model = {norm(k): v for k, v in model.items()}
-        impl = {norm(k): v for k, v in impl.items()}
+            return (parts[1], int(parts[2][1:])) if len(parts) > 2 and parts[2].startswith("s") else None
+        mper = {period(k) for k in mkeys if period(k)}
+        ren = {}
+        for ip in {period(k) for k in ikeys if period(k)} - mper:
+            near = [mp for mp in mper if mp[0] == ip[0] and abs(mp[1] - ip[1]) == 1]
+            if len(near) == 1:
+                ren[ip] = near[0]
+        def rename(k):
+            pk = period(k)
+            if pk in ren:
+                parts = k.split("|")
+                parts[2] = f"s{ren[pk][1]}"
+                return "|".join(parts)
+            return k
+        impl = {rename(k): v for k, v in impl.items()}
         mkeys, ikeys = set(model), set(impl)
     for k in sorted(mkeys - ikeys):
         diffs.append(f"only-in-model:{k}")
